@@ -50,11 +50,13 @@ func c09Scenario(name string, o tOpt, p int, expectAllOK bool) vr.Scenario {
 				if s.dc.IsClosed() {
 					return
 				}
+				sawClosed := false
 				count := func(dc *TraditionalDnsConn) int {
 					var held []ReservedExchanger
 					for len(held) < 1000 {
-						re, _ := dc.ReserveNewQuery()
+						re, closed := dc.ReserveNewQuery()
 						if re == nil {
+							sawClosed = sawClosed || closed
 							break
 						}
 						held = append(held, re)
@@ -69,7 +71,9 @@ func c09Scenario(name string, o tOpt, p int, expectAllOK bool) vr.Scenario {
 				f := NewDnsConn(TraditionalDnsConnOpts{WithLengthHeader: s.tcp, MaxConcurrentQuery: o.MaxCq}, a)
 				ex.fresh = count(f)
 				f.Close()
-				ex.measured = true
+				// the connection may die (peer close being processed by the read
+				// loop) while we measure: capacity of a dead connection is not defined
+				ex.measured = !sawClosed
 				s.dc.queueMu.Lock()
 				ex.reservedEnd, ex.queueEnd = s.dc.reservedQuery, len(s.dc.queue)
 				s.dc.queueMu.Unlock()
@@ -130,7 +134,7 @@ func c09Scenario(name string, o tOpt, p int, expectAllOK bool) vr.Scenario {
 		key = append(key, fmt.Sprintf("dials%d", s.dials))
 		return strings.Join(key, ","), nil
 	}
-	return vr.Scenario{Name: name, P: p, Horizon: 60 * time.Second, Body: body, Check: check, Params: o}
+	return vr.Scenario{Name: name, P: p, D: p, Horizon: 60 * time.Second, Body: body, Check: check, Params: o}
 }
 
 func TestVerifC09(t *testing.T) {
@@ -145,14 +149,14 @@ func TestVerifC09(t *testing.T) {
 	all := srvOpt{AnswerAll: true}
 	scs := []vr.Scenario{
 		c09Scenario("tdc-tcp-L1-c2", tOpt{Kind: "tdc-tcp", Callers: 2, MaxCq: 1, Srv: all}, pp(2, 3), false),
-		c09Scenario("tdc-tcp-L2-c3-withdraw", tOpt{Kind: "tdc-tcp", Callers: 3, MaxCq: 2, Srv: all, Withdraw: true}, pp(1, 2), false),
-		c09Scenario("tdc-tcp-L2-c2-seq2", tOpt{Kind: "tdc-tcp", Callers: 2, Seq: 2, MaxCq: 2, Srv: all}, pp(1, 2), true),
-		c09Scenario("tdc-udp-L2-c3-cancel", tOpt{Kind: "tdc-udp", Callers: 3, MaxCq: 2, Srv: srvOpt{Reorder: true}, CtxMode: []int{2, 0, 0}}, pp(1, 2), false),
-		c09Scenario("tdc-tcp-L2-c2-srvclose", tOpt{Kind: "tdc-tcp", Callers: 2, MaxCq: 2, Srv: srvOpt{CloseBudget: 1}}, pp(1, 2), false),
+		c09Scenario("tdc-tcp-L2-c3-withdraw", tOpt{Kind: "tdc-tcp", Callers: 3, MaxCq: 2, Srv: all, Withdraw: true}, pp(2, 3), false),
+		c09Scenario("tdc-tcp-L2-c2-seq2", tOpt{Kind: "tdc-tcp", Callers: 2, Seq: 2, MaxCq: 2, Srv: all}, pp(2, 3), true),
+		c09Scenario("tdc-udp-L2-c3-cancel", tOpt{Kind: "tdc-udp", Callers: 3, MaxCq: 2, Srv: srvOpt{Reorder: true}, CtxMode: []int{2, 0, 0}}, pp(2, 3), false),
+		c09Scenario("tdc-tcp-L2-c2-srvclose", tOpt{Kind: "tdc-tcp", Callers: 2, MaxCq: 2, Srv: srvOpt{CloseBudget: 1}}, pp(2, 3), false),
 		c09Scenario("pipeline-tcp-L2-q2-c2", tOpt{Kind: "pipeline-tcp", Callers: 2, MaxCq: 2, LazyQueue: 2, Srv: all}, pp(2, 3), true),
-		c09Scenario("pipeline-tcp-L2-q2-c3", tOpt{Kind: "pipeline-tcp", Callers: 3, MaxCq: 2, LazyQueue: 2, Srv: all}, pp(1, 2), true),
+		c09Scenario("pipeline-tcp-L2-q2-c3", tOpt{Kind: "pipeline-tcp", Callers: 3, MaxCq: 2, LazyQueue: 2, Srv: all}, pp(2, 3), true),
 		c09Scenario("pipeline-udp-L1-q1-c2", tOpt{Kind: "pipeline-udp", Callers: 2, MaxCq: 1, LazyQueue: 1, Srv: all}, pp(2, 3), true),
-		c09Scenario("reuse-c2-seq2", tOpt{Kind: "reuse", Callers: 2, Seq: 2, Srv: all}, pp(1, 2), true),
+		c09Scenario("reuse-c2-seq2", tOpt{Kind: "reuse", Callers: 2, Seq: 2, Srv: all}, pp(2, 3), true),
 	}
 	vr.RunScenarios("C09", scs)
 }
